@@ -12,6 +12,7 @@ import AgVerif.Proof.InsnFields
 import AgVerif.Proof.InsnFieldsFull
 import AgVerif.Proof.InsnEdAll
 import AgVerif.Proof.InsnDecValid
+import AgVerif.Proof.PyInsn
 import AgVerif.Proof.InsnLits
 namespace AgVerif.C01
 open AgVerif.Insn AgVerif.Gen AgVerif.Spec
@@ -226,6 +227,50 @@ theorem operand_literals (x : Insn) (hs : (toSpec x.fmt).isSome = true)
     (hk : needsKind x.fmt = true → ∃ k, kindOf x.op = some k) (h35 : x.fmt ≠ .f35c) :
     litsOfOperands x = literals x :=
   lits_operands_all x hs hk h35
+
+open AgVerif.PyInsn AgVerif.Gen.PyInsn in
+/-- Tie by translation: each of the 36 `Instruction<fmt>.__init__` constructors, translated from the Python source on
+    every run (gen/py2lean_insn.py → AgVerif.Gen.PyInsn), sets on every byte list exactly the attributes the model's
+    `decode` of that class computes, and raises exactly when it does (lemmas: Proof/PyInsn.lean).  A changed mask, shift,
+    padding check, count limit or struct string in any constructor breaks this theorem. -/
+theorem source_constructors_agree (bs : List Nat) (hb : ∀ b ∈ bs, b < 256) :
+    DecodeAgrees .f35c init_35c ["A", "BBBB", "C", "D", "E", "F", "G"] bs ∧
+    DecodeAgrees .f10x init_10x [] bs ∧
+    DecodeAgrees .f21h init_21h ["AA", "__BBBB", "BBBB"] bs ∧
+    DecodeAgrees .f11n init_11n ["A", "B"] bs ∧
+    DecodeAgrees .f21c init_21c ["AA", "BBBB"] bs ∧
+    DecodeAgrees .f21s init_21s ["AA", "BBBB"] bs ∧
+    DecodeAgrees .f22c init_22c ["A", "B", "CCCC"] bs ∧
+    DecodeAgrees .f22cs init_22cs ["A", "B", "CCCC"] bs ∧
+    DecodeAgrees .f31t init_31t ["AA", "BBBBBBBB"] bs ∧
+    DecodeAgrees .f31c init_31c ["AA", "BBBBBBBB"] bs ∧
+    DecodeAgrees .f12x init_12x ["A", "B"] bs ∧
+    DecodeAgrees .f11x init_11x ["AA"] bs ∧
+    DecodeAgrees .f51l init_51l ["AA", "BBBBBBBBBBBBBBBB"] bs ∧
+    DecodeAgrees .f31i init_31i ["AA", "BBBBBBBB"] bs ∧
+    DecodeAgrees .f22x init_22x ["AA", "BBBB"] bs ∧
+    DecodeAgrees .f23x init_23x ["AA", "BB", "CC"] bs ∧
+    DecodeAgrees .f20t init_20t ["AAAA"] bs ∧
+    DecodeAgrees .f21t init_21t ["AA", "BBBB"] bs ∧
+    DecodeAgrees .f10t init_10t ["AA"] bs ∧
+    DecodeAgrees .f22t init_22t ["A", "B", "CCCC"] bs ∧
+    DecodeAgrees .f22s init_22s ["A", "B", "CCCC"] bs ∧
+    DecodeAgrees .f22b init_22b ["AA", "BB", "CC"] bs ∧
+    DecodeAgrees .f30t init_30t ["AAAAAAAA"] bs ∧
+    DecodeAgrees .f3rc init_3rc ["AA", "BBBB", "CCCC"] bs ∧
+    DecodeAgrees .f32x init_32x ["AAAA", "BBBB"] bs ∧
+    DecodeAgrees .f20bc init_20bc ["AA", "BBBB"] bs ∧
+    DecodeAgrees .f35mi init_35mi ["A", "BBBB", "C", "D", "E", "F", "G"] bs ∧
+    DecodeAgrees .f35ms init_35ms ["A", "BBBB", "C", "D", "E", "F", "G"] bs ∧
+    DecodeAgrees .f3rmi init_3rmi ["AA", "BBBB", "CCCC"] bs ∧
+    DecodeAgrees .f3rms init_3rms ["AA", "BBBB", "CCCC"] bs ∧
+    DecodeAgrees .f41c init_41c ["BBBBBBBB", "AAAA"] bs ∧
+    DecodeAgrees .f40sc init_40sc ["BBBBBBBB", "AAAA"] bs ∧
+    DecodeAgrees .f52c init_52c ["CCCCCCCC", "AAAA", "BBBB"] bs ∧
+    DecodeAgrees .f5rc init_5rc ["BBBBBBBB", "AAAA", "CCCC"] bs ∧
+    DecodeAgrees .f45cc init_45cc ["A", "BBBB", "C", "D", "E", "F", "G", "HHHH"] bs ∧
+    DecodeAgrees .f4rcc init_4rcc ["AA", "BBBB", "CCCC", "HHHH"] bs :=
+  PyInsn.source_constructors_agree bs hb
 
 /-! ### non-vacuity -/
 
